@@ -71,7 +71,7 @@ package tui
 //@ property C14
 //@ requires r != nil
 //@ modifies *r
-//@ callsite flushRaw requires len(arg0) >= 5 && arg0[len(arg0)-5] == 27 && arg0[len(arg0)-4] == 91 && arg0[len(arg0)-3] == 63 && arg0[len(arg0)-2] == 55 && arg0[len(arg0)-1] == 104
+//@ callsite flushRaw requires len(arg1) >= 5 && arg1[len(arg1)-5] == 27 && arg1[len(arg1)-4] == 91 && arg1[len(arg1)-3] == 63 && arg1[len(arg1)-2] == 55 && arg1[len(arg1)-1] == 104 -- (arg0 is the receiver)
 //@ func LightRenderer.flushRaw trusted
 //@ requires r != nil
 
